@@ -85,4 +85,20 @@ def run():
     g = fb.fn("fd_expr")
     e = [n for n in g.nodes() if n["k"] == "return"][0]["e"]
     control("fd: (h==0 ? 1 : h&3) over 0..7", [1, 1, 2, 3, 0, 1, 2, 3], [fd.ev(e, {"h": h}) for h in range(8)])
+    # ---- G-SYM
+    from . import symx
+    X = symx.Explorer(prog, inline=lambda fn, n: fn.name.startswith("sym_"), transparent=lambda n: True)
+
+    def rets(name, **params):
+        f_ = fb.fn(name)
+        outs = X.explore(f_, params={p["n"]: ("a", "p%d" % i) for i, p in enumerate(f_.params)})
+        return sorted({(tuple(sorted((symx.show(t), v) for (t, v) in o.conds)), symx.show(o.ret)) for o in outs if o.status == "ret"})
+    control("sym: helper extraction and a hoisted const local give the same term", rets("sym_inline"), rets("sym_helper"))
+    control("sym: swapped stream operands give a different term", True, rets("sym_inline") != rets("sym_swapped"))
+    control("sym: a wider operand type gives a different term", True, rets("sym_inline") != rets("sym_widened"))
+    control("sym: range-for and canonical index loop give the same term", rets("sym_range"), rets("sym_index"))
+    control("sym: if/else and ?: give the same outcomes", rets("sym_cond_if"), rets("sym_cond_q"))
+    acc, last = rets("sym_acc"), rets("sym_last")
+    control("sym: an accumulated flag refers to its previous value, an overwritten one does not", (True, False), (any("prev" in r for (_c, r) in acc), any("prev" in r for (_c, r) in last)))
+    control("sym: regrouped offsets address the same element", rets("sym_off_a"), rets("sym_off_b"))
     return res
